@@ -74,7 +74,9 @@ class Frames(Part):
     chunk = 150
 
     def strategy(self, tier):
-        w = st.one_of(st.sampled_from([0, 0, 1, 2, 3, 5, 8, 13]).map(lambda d: ["delta", d]), st.integers(1, 120).map(lambda v: ["abs", v]))
+        # a few very wide consoles too (a log file opened with width=2000): padding of more than 1024 / 2048 cells
+        w = st.one_of(st.sampled_from([0, 0, 1, 2, 3, 5, 8, 13]).map(lambda d: ["delta", d]), st.integers(1, 120).map(lambda v: ["abs", v]), st.integers(1, 120).map(lambda v: ["abs", v]),
+                      st.sampled_from([1023, 1024, 1030, 1500, 2047, 2054, 2500, 5000]).map(lambda v: ["abs", v]))
         return st.builds(lambda f, w, env: {"frame": f, "w": w, "env": env}, frame_strategy(), w, st.sampled_from(["utf8", "utf8", "ascii", "legacy"]))
 
     def check(self, spec, ctx):
@@ -302,8 +304,14 @@ class ColumnsTrees(Part):
             items = TOKENS[:spec["n"]]
             W = spec["W"]
             con = make_console(W)
-            c = sut(Columns, list(items), padding=tuple(spec["padding"]), expand=spec["expand"], equal=spec["equal"], column_first=spec["column_first"],
+            source = list(items)
+            c = sut(Columns, source, padding=tuple(spec["padding"]), expand=spec["expand"], equal=spec["equal"], column_first=spec["column_first"],
                     right_to_left=spec["right_to_left"], align=spec["align"], title=spec["title"])
+            # what the caller does afterwards with the list it passed in does not change what the Columns shows; a second Columns made from it is on its own
+            other = sut(Columns, source)
+            sut(other.add_renderable, "zzother")
+            source.append("zzlater")
+            source.reverse()
             if spec.get("first") is not None and spec["first"] < len(items):
                 # history: render with the first items only, add the rest with add_renderable(), render again - the second render is judged
                 c = sut(Columns, list(items[:spec["first"]]), padding=tuple(spec["padding"]), expand=spec["expand"], equal=spec["equal"], column_first=spec["column_first"],
